@@ -48,11 +48,19 @@ class FastHierarchyAnalyzer(HierarchyAnalyzerBase):
         return SelChoiceEncoderType.FAST
 
     def _get_n_opts(self) -> List[int]:
+        # A choice left without options (e.g. all removed by incompatibility constraints) can never be taken: the branch
+        # it is in is a dead end, however other branches can still be feasible
         sel_choice_opt_nodes = self.selection_choice_option_nodes
-        return [len(sel_choice_opt_nodes[node]) for node in self.selection_choice_nodes]
+        return [max(1, len(sel_choice_opt_nodes[node])) for node in self.selection_choice_nodes]
 
     def _get_selection_choice_is_forced(self) -> np.ndarray:
         is_forced = np.array([False for _ in range(len(self.selection_choice_option_nodes))], dtype=bool)
+
+        # Choices without any option cannot be represented by a design variable
+        sel_choice_opt_nodes = self.selection_choice_option_nodes
+        for i_choice, node in enumerate(self.selection_choice_nodes):
+            if len(sel_choice_opt_nodes[node]) == 0:
+                is_forced[i_choice] = True
 
         # For linked choice constraints, set all but one to forced
         i_choice_nodes = {node: i for i, node in enumerate(self.selection_choice_nodes)}
@@ -132,6 +140,8 @@ class FastHierarchyAnalyzer(HierarchyAnalyzerBase):
                     continue
 
                 # Make choice
+                if i_opt >= len(sel_choice_opt_nodes[choice_node]):
+                    raise NoOptionError(f'No options available for choice: {choice_node!r}')
                 option_node = sel_choice_opt_nodes[choice_node][i_opt]
                 graph_cache[cache_key] = graph = graph.get_for_apply_selection_choice(choice_node, option_node)
 
